@@ -38,6 +38,21 @@ func runRegistry(a []string) (result string) {
 		// default constructors that no registry hands out
 		{"extra", []strategy.Strategy{strend.NewEnvelopeStrategy()}},
 	}
+	// the product registries, over three base strategies configured like the members of the wrapped strategies elsewhere
+	mk := func() []strategy.Strategy {
+		var l []strategy.Strategy
+		for _, p := range []string{"Macd", "Rsi", "Trix"} {
+			l = append(l, strategies[p](defaultNs[p], defaultFs[p]))
+		}
+		return l
+	}
+	regs = append(regs, struct {
+		name string
+		list []strategy.Strategy
+	}{"and", strategy.AllAndStrategies(mk())}, struct {
+		name string
+		list []strategy.Strategy
+	}{"split", strategy.AllSplitStrategies(mk())})
 	var parts []string
 	for _, r := range regs {
 		for i, s := range r.list {
